@@ -238,7 +238,7 @@ func (in *Interp) decDivZero(b Dec) {
 // mode: "trunc", "round" (half away), "floor", "ceil", "bank", "up" (away from zero)
 func (in *Interp) decRounded(x Dec, p int64, mode string) Dec {
 	tc := in.TC
-	if xi, xs, ok := in.scaled(x); ok && mode != "bank" {
+	if xi, xs, ok := in.scaled(x); ok {
 		if xs <= p {
 			return x
 		}
@@ -257,6 +257,14 @@ func (in *Interp) decRounded(x Dec, p int64, mode string) Dec {
 			r = tc.Ite(tc.App(BoolSort, ">=", xi, IntConst(0)),
 				tc.App(IntSort, "-", in.floorDivConst(tc.App(IntSort, "-", xi), k)),
 				in.floorDivConst(xi, k))
+		case "bank":
+			// half to even: fl = floor(xi/k), rem = xi - k*fl in [0,k)
+			fl := in.floorDivConst(xi, k)
+			rem2 := tc.App(IntSort, "*", tc.App(IntSort, "-", xi, in.mulConst(fl, k)), IntConst(2))
+			kc := IntConstBig(k)
+			up := tc.App(IntSort, "+", fl, IntConst(1))
+			even := tc.Eq(tc.App(IntSort, "mod", fl, IntConst(2)), IntConst(0))
+			r = tc.Ite(tc.App(BoolSort, "<", rem2, kc), fl, tc.Ite(tc.App(BoolSort, ">", rem2, kc), up, tc.Ite(even, fl, up)))
 		}
 		if p < 0 {
 			return Dec{I: in.mulConst(r, pow10Int(-p)), S: 0}
@@ -503,7 +511,7 @@ func registerDecimal(in *Interp) {
 		if !x.isSym() {
 			return x.C.StringFixed(int32(p))
 		}
-		return &SymStr{E: []value{&Tok{D: in.decRounded(x, p, "round"), Fixed: int(p)}}}
+		return in.decFixedDigits(in.decRounded(x, p, "round"), p)
 	}
 	I[M+"StringFixedBank"] = func(in *Interp, fr *frame, fn *ssa.Function, a []value) value {
 		x := decArg(a[0])
@@ -511,7 +519,7 @@ func registerDecimal(in *Interp) {
 		if !x.isSym() {
 			return x.C.StringFixedBank(int32(p))
 		}
-		return &SymStr{E: []value{&Tok{D: in.decRounded(x, p, "bank"), Fixed: int(p)}}}
+		return in.decFixedDigits(in.decRounded(x, p, "bank"), p)
 	}
 	concOnly := func(name string, f func(d decimal.Decimal) value) intrinsicFn {
 		return func(in *Interp, fr *frame, fn *ssa.Function, a []value) value {
@@ -572,6 +580,66 @@ func registerDecimal(in *Interp) {
 	}
 }
 
+// decFixedDigits renders a symbolic decimal that is already rounded to p places
+// (p >= 0) as text with exactly p fraction digits: a digit vector. The number
+// of integer digits is concretised by forking (bounded by 20); every digit is a
+// fresh Int variable d_i in 0..9 constrained by sum d_i*10^i = |R| (the decimal
+// expansion exists and is unique, so this is a definitional extension).
+func (in *Interp) decFixedDigits(x Dec, p int64) value {
+	tc := in.TC
+	xi, xs, ok := in.scaled(x)
+	if !ok || p < 0 {
+		return &SymStr{E: []value{&Tok{D: x, Fixed: int(p)}}}
+	}
+	// bring to scale exactly p
+	R := xi
+	if xs < p {
+		R = in.mulConst(xi, pow10Int(p-xs))
+	} else if xs > p {
+		panic(unsupported{"decFixedDigits: value not rounded to the requested places"})
+	}
+	neg := in.branch(tc.App(BoolSort, "<", R, IntConst(0)))
+	abs := R
+	if neg {
+		abs = tc.App(IntSort, "-", R)
+	}
+	nd := int64(0)
+	for k := int64(1); k <= 20; k++ {
+		if in.branch(tc.App(BoolSort, "<", abs, IntConstBig(pow10Int(p+k)))) {
+			nd = k
+			break
+		}
+	}
+	if nd == 0 {
+		panic(unsupported{"symbolic decimal with more than 20 integer digits rendered as text"})
+	}
+	in.run.fresh++
+	base := fmt.Sprintf("sf!%d", in.run.fresh)
+	total := nd + p
+	sum := IntConst(0)
+	chars := make([]value, 0, total+2)
+	digits := make([]*Term, total)
+	for i := int64(0); i < total; i++ {
+		d := tc.Declare(fmt.Sprintf("%s!%d", base, i), IntSort)
+		digits[i] = d
+		in.assume(tc.And(tc.App(BoolSort, "<=", IntConst(0), d), tc.App(BoolSort, "<=", d, IntConst(9))))
+		sum = tc.App(IntSort, "+", sum, in.mulConst(d, pow10Int(i)))
+	}
+	in.assume(tc.Eq(sum, abs))
+	if neg {
+		chars = append(chars, int64('-'))
+	}
+	for i := total - 1; i >= 0; i-- {
+		if i == p-1 {
+			chars = append(chars, int64('.'))
+		}
+		ch := tc.App(BV(8), "(_ int2bv 8)", tc.App(IntSort, "+", IntConst(48), digits[i]))
+		tc.MarkDigit(ch, digits[i])
+		chars = append(chars, &Sym{T: ch})
+	}
+	return &SymStr{E: chars}
+}
+
 // decFromSymString parses [-+]?digits[.digits] with symbolic digit bytes.
 // Any other shape (exponents etc.) with symbolic bytes is unsupported.
 func (in *Interp) decFromSymString(fr *frame, s *SymStr) value {
@@ -616,6 +684,10 @@ func (in *Interp) decFromSymString(fr *frame, s *SymStr) value {
 			}
 			d = IntConst(b - '0')
 		case *Sym:
+			if kd, ok := tc.DigitOf(b.T); ok {
+				d = kd
+				break
+			}
 			isd := tc.And(tc.App(BoolSort, "bvule", BVConst('0', 8), b.T), tc.App(BoolSort, "bvule", b.T, BVConst('9', 8)))
 			if !in.branch(isd) {
 				isE := tc.Or(tc.Eq(b.T, BVConst('e', 8)), tc.Eq(b.T, BVConst('E', 8)))
